@@ -354,6 +354,29 @@ def doIpowRoute (l : Line) : Option String := do
   some (match ipowRoute t p with
     | .generic k => s!"generic:{k}" | .npPower => "nppower" | .raises => "raises")
 
+/-- `elemopl op=<…E Op> n=LEN x=… v=…` : an array-like operand (`Op.execCoerced`): self =
+buffer 0, the buffer `space.element(other)` wraps = 1 (junk 55 before the coercion), fresh
+result = 2 (junk 77). Answers the returned buffer, the result, self and the coerced buffer. -/
+def doElemOpL (l : Line) : Option String := do
+  let op ← l.get? "op" >>= parseOp
+  let n ← l.nat? "n"
+  let x ← l.crats? "x"
+  let v ← l.crats? "v"
+  let m := memOf [x, List.replicate n ⟨55, 0⟩, List.replicate n ⟨77, 0⟩]
+  let va := v.toArray
+  let vv : Vec CRat := fun i => va.getD i 0
+  let divisorZeroEntry : Bool :=
+    match op with
+    | .divE | .idivE => ((List.range n).any fun i => vv i = 0)
+    | .rdivE => ((List.range n).any fun i => m 0 i = 0)
+    | _ => false
+  if divisorZeroEntry then some "undef:div0entry" else
+  match op.execCoerced (tensorLC n false) 0 1 2 vv m with
+  | none => some "raises"
+  | some (m', r) =>
+    let dump (b : Nat) := showCList ((List.range n).map (m' b))
+    some s!"ok r={r} res={dump r} x={dump 0} l={dump 1}"
+
 def handle (l : Line) : Option String :=
   match l.op with
   | "lincomb" => doLincomb l
@@ -367,6 +390,7 @@ def handle (l : Line) : Option String :=
   | "pmuldiv" => doPMulDiv l
   | "pelemop" => doPElemOp l
   | "tover" => doTOver l
+  | "elemopl" => doElemOpL l
   | "ipowroute" => doIpowRoute l
   | "leaves" => doLeaves l
   | _ => none
